@@ -135,7 +135,6 @@ func regionalKMS(t *testing.T, r *ev.Run) {
 	}
 }
 
-
 // suffixMigration: records written by processes that do not use region-suffixed key ids must still decrypt after
 // the deployment has switched the region suffix on (the suffixed partition accepts the legacy ids), in any region,
 // and records written with a suffix decrypt in every other region; for several service/product/partition shapes.
